@@ -250,6 +250,26 @@ def gen_large_group(r, n=700):
     return {"genes": genes, "tes": rows, "windows": [500, 1500, 3500], "features": ["large_group_%d" % len(tes)]}
 
 
+def gen_big_files(r, ngenes=260, ntes=420):
+    """one chromosome whose cached intermediates are each larger than a buffered writer's buffer (8 KiB, often 64 KiB for pandas):
+    many short genes and many TEs that mostly do not touch (so that the revision keeps them), a few overlapping pairs"""
+    genes, tes, pos = [], [], 2000
+    orders = [("LTR", "Gypsy"), ("LTR", "Copia"), ("DNA", "hAT"), ("DNA", "MULE"), ("LINE", "L1")]
+    for i in range(ngenes):
+        ln = r.randint(200, 900)
+        genes.append({"name": "bigfile_gene_%04d" % i, "chrom": "ChrF", "start": pos, "stop": pos + ln, "strand": "+-."[i % 3]})
+        pos += ln + r.randint(300, 1500)
+    end = pos
+    pos = 1
+    for i in range(ntes):
+        ln = r.randint(50, 700)
+        o, s_ = orders[r.randrange(len(orders))]
+        tes.append({"chrom": "ChrF", "start": pos, "stop": pos + ln, "order": o, "superfam": s_, "strand": "+"})
+        pos += r.choice([ln + r.randint(1, max(2, (end // ntes) - 300)), ln // 2])
+    r.shuffle(tes)
+    return {"genes": genes, "tes": tes, "windows": [400, 400, 800], "features": ["big_files"]}
+
+
 def has_same_group_overlap(tes):
     by = {}
     for t in tes:
